@@ -173,6 +173,7 @@ pub fn trace(args: &[String]) -> i32 {
     let runs = arg_u64(args, "--runs", 10);
     let first = arg_u64(args, "--first-run", 0);
     let maxlen = arg_u64(args, "--maxlen", 200);
+    let long = arg_u64(args, "--long", 0);      // this many LONG genomes (3 minutes of TLC each)
     let mut out = Out::create(arg_req(args, "--out"));
     for run in first..first + runs {
         let mut rng = run_rng(seed, 0xC05, run);
@@ -186,6 +187,24 @@ pub fn trace(args: &[String]) -> i32 {
                 if rng.random() {
                     genes.push(json!({"c": true}));
                 }
+            }
+            let genes = Value::Array(genes);
+            let tokens = translate_flat(&genes);
+            out.line(&json!({"ev": "parse_flat", "run": run, "genes": genes, "tokens": tokens}));
+            continue;
+        }
+        if long > 0 && run % 200 == 7 && run < 200 * long {
+            // LONG genomes (beyond 2^14 genes; every few thousand genes a block opener, some of them never
+            // closed, the last one opened a few genes before the end), compared as token sequences
+            let n = [16_385usize, 16_500, 20_011][rng.random_range(0..3)];
+            let mut genes: Vec<Value> = Vec::with_capacity(n);
+            for pos in 0..n {
+                let r = rng.random_range(0..4000u32);
+                genes.push(if pos + 3 == n { json!({"o": 2, "t": 0}) }
+                           else if r == 0 { json!({"o": 2, "t": 0}) }
+                           else if r == 1 { json!({"o": 1, "t": pos % 3}) }
+                           else if r < 4 { json!({"c": true}) }
+                           else { json!({"o": 0, "t": pos % 1000}) });
             }
             let genes = Value::Array(genes);
             let tokens = translate_flat(&genes);
